@@ -78,7 +78,9 @@ func (pConn *PFCPConn) handleSessionEstablishmentRequest(msg message.Message) (m
 		return seres, errProcess(err)
 	}
 
-	if strings.Compare(nodeID, pConn.nodeID.remote) != 0 {
+	// pConn.ts.remote is only set once an association has been set up; without that check a
+	// Node ID that decodes to the empty string would match the unset association Node ID.
+	if pConn.ts.remote.IsZero() || strings.Compare(nodeID, pConn.nodeID.remote) != 0 {
 		logger.PfcpLog.Warnln("association not found for Establishment request",
 			"with nodeID:", nodeID, ", association NodeID:", pConn.nodeID.remote)
 		return errProcessReply(ErrAssocNotFound, ie.CauseNoEstablishedPFCPAssociation)
